@@ -284,6 +284,9 @@ def oracle(w, mev, timeouts):
             if res.startswith("!"):
                 return f"operation {op} ({o['kind']}) ended with an unexpected exception {res}"
             if o["kind"] == "scan":
+                if res == "timeout":
+                    return (f"scan {op} was ended by a timeout at {now}: a scan ends with its completion callback (or its caller's cancellation), "
+                            "the results collected so far are not to be thrown away")
                 if res.startswith("ok["):
                     got = [int(x) for x in res[3:-1].split("+") if x]
                     if o["resp"] != "ok" or o["complete"] is not True:
@@ -369,8 +372,11 @@ def scripts(ctx):
             alpha = alpha0 + (["Z=up", "Z=down", "R=noparent", "R=leaving"] if n <= 3 else [])
             for w in itertools.product(alpha, repeat=n):
                 out.append([f"B=1={kind}"] + list(w))
-    alpha = ["R=ok", "R=refused", "I", "J", "X=1", "X=0", "C=1", "E=up"]
+    alpha_scan = ["R=ok", "R=refused", "I", "J", "X=1", "X=0", "C=1", "E=up"]
     for n in range(1, ctx.n(4, 6) + 1):
+        # (a scan has no deadline of its own - it ends with its completion callback, however long that takes: "T" lets whatever
+        # timer is armed expire; in words up to length 4)
+        alpha = alpha_scan + (["T"] if n <= 4 else [])
         for w in itertools.product(alpha, repeat=n):
             sc, tag = ["I=99", "B=1=scan"], 0
             for x in w:
